@@ -132,7 +132,10 @@ func bridgeConstants() {
 }
 
 // buildBridgeFixture prepares the state every behaviour starts from and leaves it in a directory.
-func buildBridgeFixture() (*bridgeFixture, error) {
+func buildBridgeFixture() (*bridgeFixture, error) { return buildBridgeFixtureThen(nil) }
+
+// buildBridgeFixtureThen: as buildBridgeFixture, with a last act on the node before it is stopped.
+func buildBridgeFixtureThen(then func(p *node.Node, fx *bridgeFixture) error) (*bridgeFixture, error) {
 	bridgeConstants()
 	node.Clock.Set(time.Unix(1000000000, 0))
 	p, err := node.New("bridge-fixture", node.Options{Producer: true})
@@ -217,10 +220,64 @@ func buildBridgeFixture() (*bridgeFixture, error) {
 	for (p.Height()+1)%bridgeUnit != 0 {
 		p.Produce(0)
 	}
+	if then != nil {
+		if err := then(p, fx); err != nil {
+			p.Stop()
+			return nil, err
+		}
+	}
 	fx.Height = p.Height()
 	fx.Dir = p.Dir
 	p.StopKeepDir()
 	return fx, nil
+}
+
+// bridgeTracedRun: the whole life of a bridge on one traced chain - its initialisation, a wrap on each of the four kinds of pair
+// (among them the burn the token contract refuses and refunds to the bridge), an unwrap and its redeem - for trace validation
+// (C01: refunds between contracts leave the sums unchanged).
+func bridgeTracedRun() (*ledgerRun, error) {
+	cap := ledger.StartCapture()
+	defer cap.Stop()
+	fx, err := buildBridgeFixtureThen(func(p *node.Node, fx *bridgeFixture) error {
+		for i, cfg := range []string{"plain", "proper", "burnable", "stubborn", "stubborn"} {
+			u := []*wallet.KeyPair{g.User1, g.User2}[i%2]
+			if _, err := p.Submit(&nom.AccountBlock{BlockType: nom.BlockTypeUserSend, Address: u.Address, ToAddress: types.BridgeContract, TokenStandard: fx.Tokens[cfg], Amount: big.NewInt(int64(5000 + i)),
+				Data: definition.ABIBridge.PackMethodPanic(definition.WrapTokenMethodName, bridgeNet, bridgeChain, "0xb794f5ea0ba39494ce839613fffba74279579268")}, u); err != nil {
+				return fmt.Errorf("traced bridge run: wrap refused: %v", err)
+			}
+			if err := p.Produce(0); err != nil {
+				return err
+			}
+		}
+		tx := types.NewHash([]byte("traced-unwrap"))
+		amt := big.NewInt(700)
+		if _, err := p.Submit(&nom.AccountBlock{BlockType: nom.BlockTypeUserSend, Address: g.User3.Address, ToAddress: types.BridgeContract, TokenStandard: types.ZeroTokenStandard, Amount: big.NewInt(0),
+			Data: definition.ABIBridge.PackMethodPanic(definition.UnwrapTokenMethodName, bridgeNet, bridgeChain, tx, uint32(1), g.User2.Address, bridgePairAddr["plain"], amt, bridgeUnwrapSig(tx, 1, g.User2.Address, bridgePairAddr["plain"], amt))}, g.User3); err != nil {
+			return fmt.Errorf("traced bridge run: unwrap refused: %v", err)
+		}
+		if err := p.ProduceN(bridgeDelay + 3); err != nil {
+			return err
+		}
+		if _, err := p.Submit(&nom.AccountBlock{BlockType: nom.BlockTypeUserSend, Address: g.User4.Address, ToAddress: types.BridgeContract, TokenStandard: types.ZeroTokenStandard, Amount: big.NewInt(0),
+			Data: definition.ABIBridge.PackMethodPanic(definition.RedeemUnwrapMethodName, tx, uint32(1))}, g.User4); err != nil {
+			return fmt.Errorf("traced bridge run: redeem refused: %v", err)
+		}
+		return p.ProduceN(6)
+	})
+	if err != nil {
+		return nil, err
+	}
+	os.RemoveAll(fx.Dir)
+	ids := cap.ChainIDs()
+	if len(ids) != 1 {
+		return nil, fmt.Errorf("traced bridge run: expected one chain in capture, got %v", ids)
+	}
+	pr := ledger.NewProjector()
+	pr.Observer = ledger.StandardObserver(walk.EpochMomentums)
+	if err := cap.Project(ids[0], pr); err != nil {
+		return nil, err
+	}
+	return &ledgerRun{Name: "bridge on one traced chain (initialisation, wraps on the four kinds of pair, unwrap, redeem)", Events: pr.Events, Note: pr.Note}, nil
 }
 
 type bridgeReplayStats struct {
